@@ -505,12 +505,19 @@ pub fn run(tier: Tier) -> ! {
     {
         let depths: Vec<usize> = vec![50, 100, 200, 249, 250, 251, 300, 400, 500, 600, 800, 1000, 1023, 1024, 1025, 1500, 2000, 5000, 20000];
         let shapes = ["groups", "alternations", "repetitions", "classes", "concat-groups"];
-        let items: Vec<(usize, &str, bool)> = depths.iter().flat_map(|d| shapes.iter().flat_map(move |s| [(*d, *s, false), (*d, *s, true)])).collect();
+        // (depth, shape, as lookahead, unoptimised build)
+        let items: Vec<(usize, &str, bool, bool)> = depths.iter().flat_map(|d| shapes.iter().flat_map(move |s| [(*d, *s, false, false), (*d, *s, true, false), (*d, *s, false, true), (*d, *s, true, true)])).collect();
         let exe = std::env::current_exe().expect("own path");
+        // target/release/pubcheck -> target/debug/deepprobe (built by ./check and setup.sh)
+        let probe = exe.parent().and_then(|p| p.parent()).map(|p| p.join("debug").join("deepprobe")).filter(|p| p.exists()).unwrap_or_else(|| refsem::evidence::machinery("harness/target/debug/deepprobe is missing (./check C15 builds it)"));
         let accs = par_for(items.len(), 1, || Acc { samples: Samples::new(1), ..Default::default() }, |acc, i| {
-            let (depth, shape, as_lookahead) = items[i];
+            let (depth, shape, as_lookahead, unoptimised) = items[i];
             acc.n += 1;
-            let out = std::process::Command::new(&exe).args(["c15-deep", shape, &depth.to_string(), if as_lookahead { "lookahead" } else { "pattern" }]).stdout(std::process::Stdio::piped()).stderr(std::process::Stdio::null()).spawn().and_then(|mut child| {
+            let mut cmd = if unoptimised { std::process::Command::new(&probe) } else { std::process::Command::new(&exe) };
+            if !unoptimised {
+                cmd.arg("c15-deep");
+            }
+            let out = cmd.args([shape, &depth.to_string(), if as_lookahead { "lookahead" } else { "pattern" }]).stdout(std::process::Stdio::piped()).stderr(std::process::Stdio::null()).spawn().and_then(|mut child| {
                 // watchdog: 60 s
                 let start = std::time::Instant::now();
                 loop {
@@ -536,12 +543,12 @@ pub fn run(tier: Tier) -> ! {
                 Ok((Some(st), o)) if st.success() => o.trim().to_string(),
                 Ok((Some(st), _)) => format!("killed ({st})"),
             };
-            *acc.stats.entry(format!("deep:{shape}:{}", if verdict.starts_with("killed") { "killed" } else { verdict.as_str() })).or_default() += 1;
+            *acc.stats.entry(format!("deep:{}:{shape}:{}", if unoptimised { "dev-profile" } else { "release-profile" }, if verdict.starts_with("killed") { "killed" } else { verdict.as_str() })).or_default() += 1;
             if verdict != "ok" && verdict != "err" {
                 acc.viol.add("", || Violation {
                     key: String::new(),
-                    summary: format!("a {} of {depth} nested {shape}, built on a thread with a 2 MiB stack: {verdict}, expected a scanner or an error", if as_lookahead { "lookahead" } else { "pattern" }),
-                    replay: json!({"pattern_shape": shape, "depth": depth, "slot": if as_lookahead { "lookahead of pattern a" } else { "pattern" }, "call": "ScannerBuilder::build_uncached() on std::thread::Builder::new().stack_size(2 MiB)", "got": verdict, "expected": "Ok or Err", "how_to_build_the_pattern": "groups: '('*d + 'a' + ')'*d; alternations: '(a|'*d + 'a' + ')'*d; repetitions: '('*d + 'a' + ')*'*d; classes: '[a'*d + ']'*d; concat-groups: '(a'*d + ')'*d"}),
+                    summary: format!("a {} of {depth} nested {shape}, built on a thread with a 2 MiB stack ({} build): {verdict}, expected a scanner or an error", if as_lookahead { "lookahead" } else { "pattern" }, if unoptimised { "unoptimised" } else { "optimised" }),
+                    replay: json!({"pattern_shape": shape, "depth": depth, "build_profile": if unoptimised { "dev (cargo build)" } else { "release with debug assertions" }, "slot": if as_lookahead { "lookahead of pattern a" } else { "pattern" }, "call": "ScannerBuilder::build_uncached() on std::thread::Builder::new().stack_size(2 MiB)", "got": verdict, "expected": "Ok or Err", "how_to_build_the_pattern": "groups: '('*d + 'a' + ')'*d; alternations: '(a|'*d + 'a' + ')'*d; repetitions: '('*d + 'a' + ')*'*d; classes: '[a'*d + ']'*d; concat-groups: '(a'*d + ')'*d"}),
                 });
             }
         });
@@ -549,7 +556,7 @@ pub fn run(tier: Tier) -> ! {
         for a in accs {
             merge(&mut total, a);
         }
-        fams.push(json!({"family": "(h) nesting depths 50..20 000 (around 250 and 1 024 in steps of one) of groups, alternations, repetitions, bracket classes and concatenated groups, as pattern and as lookahead, each built in a child process on a thread with a 2 MiB stack: a scanner or an error, never a panic or a killed process", "patterns": n, "exhaustive": true}));
+        fams.push(json!({"family": "(h) nesting depths 50..20 000 (around 250 and 1 024 in steps of one) of groups, alternations, repetitions, bracket classes and concatenated groups, as pattern and as lookahead, each built in a child process on a thread with a 2 MiB stack, once optimised and once unoptimised (dev profile): a scanner or an error, never a panic or a killed process", "patterns": n, "exhaustive": true}));
     }
 
     // (c) through the cache: classification independent of the cache, no panic poisons it
